@@ -71,6 +71,26 @@ func main() {
 		// optional ";maps=expr|expr": range loops over these (string-keyed) map expressions
 		// are iterated in sorted key order
 		sortMaps, sortU64 = map[string]bool{}, map[string]bool{}
+		stepsFuncs = map[string]bool{}
+		// ";steps=Func|Func": a method <Func>VerifSteps is generated from the current source of Func
+		// (see addSteps); ";extra=name.go@/abs/src.go": an extra file is added to the package
+		for _, kw := range []string{";extra=", ";steps="} {
+			if i := strings.Index(flags, kw); i >= 0 {
+				rest := flags[i+len(kw):]
+				end := strings.Index(rest, ";")
+				if end < 0 {
+					end = len(rest)
+				}
+				for _, e := range strings.Split(rest[:end], "|") {
+					if kw == ";steps=" {
+						stepsFuncs[strings.TrimSpace(e)] = true
+					} else if at := strings.Index(e, "@"); at > 0 {
+						replace[filepath.Join(*repo, kv[0], e[:at])] = e[at+1:]
+					}
+				}
+				flags = flags[:i] + rest[end:]
+			}
+		}
 		if i := strings.Index(flags, ";maps="); i >= 0 {
 			for _, e := range strings.Split(flags[i+6:], "|") {
 				e = strings.TrimSpace(e)
@@ -282,13 +302,95 @@ func rewriteGo(f *ast.File) int {
 
 var timeSel = map[string]bool{"Now": true, "Since": true, "Until": true, "Sleep": true}
 
-func rewriteFile(path, flags string) ([]byte, bool) {
+var stepsFuncs = map[string]bool{}
+
+// addSteps appends, for every function of src named in stepsFuncs, a copy called <Name>VerifSteps that
+// holds the steps of the function up to (not including) its first top-level `x := time.NewTicker(...)`,
+// i.e. everything before a never-ending keep-alive loop: top-level `go f(args)` statements are dropped
+// (their arguments stay used), top-level defers other than `defer cancel()` only run when the steps
+// did not reach the end (the original runs them when its loop ends). The copy is generated from the
+// current source on every run, so a change to the original function is a change to the steps.
+func addSteps(src []byte) ([]byte, bool) {
+	if len(stepsFuncs) == 0 {
+		return src, false
+	}
 	fset := token.NewFileSet()
-	f, err := parser.ParseFile(fset, path, nil, parser.ParseComments)
+	f, err := parser.ParseFile(fset, "", src, 0)
 	if err != nil {
 		die("%v", err)
 	}
-	changed := false
+	var out bytes.Buffer
+	for _, d := range f.Decls {
+		fd, ok := d.(*ast.FuncDecl)
+		if !ok || fd.Body == nil || !stepsFuncs[fd.Name.Name] {
+			continue
+		}
+		fd.Name = ast.NewIdent(fd.Name.Name + "VerifSteps")
+		fd.Doc = nil
+		var list []ast.Stmt
+		done := false
+		cut := false
+		for _, st := range fd.Body.List {
+			if as, ok := st.(*ast.AssignStmt); ok && len(as.Rhs) == 1 {
+				if ce, ok := as.Rhs[0].(*ast.CallExpr); ok {
+					if se, ok := ce.Fun.(*ast.SelectorExpr); ok && se.Sel.Name == "NewTicker" {
+						cut = true
+						break
+					}
+				}
+			}
+			switch x := st.(type) {
+			case *ast.GoStmt:
+				for _, a := range x.Call.Args {
+					list = append(list, &ast.AssignStmt{Lhs: []ast.Expr{ast.NewIdent("_")}, Tok: token.ASSIGN, Rhs: []ast.Expr{a}})
+				}
+				continue
+			case *ast.DeferStmt:
+				if id, ok := x.Call.Fun.(*ast.Ident); ok && id.Name == "cancel" {
+					break
+				}
+				if !done {
+					list = append(list, &ast.AssignStmt{Lhs: []ast.Expr{ast.NewIdent("verifStepsDone")}, Tok: token.DEFINE, Rhs: []ast.Expr{ast.NewIdent("false")}})
+					done = true
+				}
+				list = append(list, &ast.DeferStmt{Call: &ast.CallExpr{Fun: &ast.FuncLit{Type: &ast.FuncType{Params: &ast.FieldList{}},
+					Body: &ast.BlockStmt{List: []ast.Stmt{&ast.IfStmt{Cond: &ast.UnaryExpr{Op: token.NOT, X: ast.NewIdent("verifStepsDone")},
+						Body: &ast.BlockStmt{List: []ast.Stmt{&ast.ExprStmt{X: x.Call}}}}}}}}})
+				continue
+			}
+			list = append(list, st)
+		}
+		if !cut {
+			die("steps=%s: no top-level time.NewTicker statement to cut at", fd.Name.Name)
+		}
+		if done {
+			list = append(list, &ast.AssignStmt{Lhs: []ast.Expr{ast.NewIdent("verifStepsDone")}, Tok: token.ASSIGN, Rhs: []ast.Expr{ast.NewIdent("true")}})
+		}
+		fd.Body.List = list
+		out.WriteString("\n\n")
+		if err := format.Node(&out, fset, fd); err != nil {
+			die("steps: %v", err)
+		}
+		out.WriteString("\n")
+	}
+	if out.Len() == 0 {
+		return src, false
+	}
+	return append(append([]byte(nil), src...), out.Bytes()...), true
+}
+
+func rewriteFile(path, flags string) ([]byte, bool) {
+	fset := token.NewFileSet()
+	src, err := os.ReadFile(path)
+	if err != nil {
+		die("%v", err)
+	}
+	src, stepsAdded := addSteps(src)
+	f, err := parser.ParseFile(fset, path, src, parser.ParseComments)
+	if err != nil {
+		die("%v", err)
+	}
+	changed := stepsAdded
 	hasTime := false
 	for _, im := range f.Imports {
 		p, _ := strconv.Unquote(im.Path.Value)
